@@ -121,7 +121,7 @@ def cases_for(tier, s):
     if tier == "quick":
         pool = pool[:22]
     for i, r in enumerate(pool):
-        variants = [(1 + i % 3, "none", {}), ("random", "objs", {}), (0, "compiled", {}), (0, "churn", {})]
+        variants = [(1 + i % 3, "none", {}), ("random", "objs", {}), (0, "compiled", {}), (0, "churn", {}), (2, "hostile", {})]
         if tier == "thorough":
             variants += [(2, "objs", {}), (3, "compiled", {}), ("random", "none", {})]
         opts = {"scalar_type": ["float64", "float32", "complex128"][i % 3]} if r["b"] in ("mass", "stiff_nl", "nearmiss", "expr_suite") else {}
